@@ -1,6 +1,5 @@
 PROP = dict(
     id="C17",
-    disabled=True,
     engines=["c17", "c17r"],
     go_tags=["c17"],
     lean_modules=["MM.Props.C17"],
